@@ -120,6 +120,7 @@ struct Ctx {
 	bool bad = false;
 	std::string msg;
 	struct spki_table *live = nullptr;
+	std::vector<std::pair<Key, bool>> events; // every callback in order (cleared by the reload op)
 };
 static Ctx *g_ctx;
 
@@ -153,6 +154,7 @@ static void update_cb(struct spki_table *t, const struct spki_record rec, const 
 	Ctx *c = g_ctx;
 	if (!c || t != c->live) return;
 	Key k = from_lib(&rec);
+	c->events.push_back({k, added});
 	if (added) {
 		if (!c->mirror.insert(k).second && !c->bad) { c->bad = true; c->msg = "callback 'added' for a key the log already holds: " + k.str(); }
 	} else if (!c->mirror.erase(k) && !c->bad) { c->bad = true; c->msg = "callback 'removed' for a key the log does not hold: " + k.str(); }
@@ -403,8 +405,21 @@ static vf::Result run_case(const Case &c, vf::Stats *st, RunInfo *io = nullptr)
 				int w = m2.add(k);
 				if (g != w) FAIL("C10:add-rc", "shadow add returned " + std::to_string(g));
 			}
+			g_ctx->events.clear();
 			spki_table_swap(tab, sh);
 			spki_table_notify_diff(tab, sh, &g_socks[s]);
+			{ // only the net difference of the reloading source is reported: one 'added' per key of new \ old, one 'removed' per key of old \ new
+				std::multiset<std::pair<Key, bool>> got(g_ctx->events.begin(), g_ctx->events.end()), want;
+				for (auto &k : m2.s) if (!model.s.count(k)) want.insert({k, true});
+				for (auto &k : model.s) if (!m2.s.count(k)) want.insert({k, false});
+				if (got != want) {
+					std::ostringstream o;
+					int n = 0;
+					for (auto &e : got) if (got.count(e) > want.count(e) && n++ < 4) o << " surplus{" << (e.second ? "added " : "removed ") << e.first.str() << "}";
+					for (auto &e : want) if (!got.count(e) && n++ < 4) o << " missing{" << (e.second ? "added " : "removed ") << e.first.str() << "}";
+					FAIL("C10:reload-not-net-difference", "the callbacks of swap + notify_diff (" + std::to_string(got.size()) + ") are not the net difference (" + std::to_string(want.size()) + " changes):" + o.str());
+				}
+			}
 			model = m2;
 			full_sweep(tab, model, tag);
 			check_mirror(tag);
